@@ -13,6 +13,7 @@ Record wf (g : rgeo) : Prop := mkWf {
   wf_dy : Forall (fun d => 0 < d) (gdy g);
   wf_dz : Forall (fun d => 0 < d) (gdz g);
   wf_atm : (gatm g <= 2)%nat;
+  wf_atmz : goz g <= gatmz g;                       (* the atmosphere layer is not below the top of layer 1 *)
   wf_bottom : forall i j, (i < nx g)%nat -> (j < ny g)%nat -> top g (nz g) <= gsurf g i j
 }.
 
